@@ -444,6 +444,390 @@ class C12(L1Prop):
         return True
 
 
+# ------------------------------------------------------------------ snapshot rule (C10/C11/C18)
+def chain_info(acc):
+    """acc = [(id, parent, data)] in acceptance order -> (window newest first, base)"""
+    ids = [a[0] for a in acc]
+    base = acc[0][1] if acc else 0
+    return list(reversed(ids))[:5], base
+
+
+def rule_accepts(window, base, snap, v):
+    """the property's rule; None = the corner the property leaves open (v = non-nil chain base)"""
+    if v == 0 or v == snap:
+        return False
+    if v in window:
+        for w in window:
+            if w == v:
+                return True
+            if w == snap:
+                return False
+    if v == base and base != 0 and v not in window:
+        return None
+    return False
+
+
+def dump_chain(d):
+    """(window, base) from a dump, walking get_version results back from latest"""
+    ids, stop = d.chain_back()
+    return ids[:5], (stop if len(ids) == len(d.chain_back()[0]) else stop)
+
+
+class C10(L1Prop):
+    id = "C10"
+    rule = ("exhaustive small scope: chain length 0..N x chain base nil/non-nil x existing snapshot at none / each "
+            "position x requested version in {nil, each position, base, fresh, foreign, current snapshot}, each with a dump "
+            "before and after and a GetSnapshot after; plus random long histories; non-trivial = the decision depends on "
+            "the window or on the existing snapshot (chain >= 2)")
+    def cases(self, rng, tier):
+        out = []
+        maxn = sizes(tier, 7, 9)
+        k = 0
+        for n in range(0, maxn + 1):
+            for base_nonnil in (False, True):
+                for spos in [None] + list(range(1, n + 1)):
+                    targets = ["nil", "base:1", "fresh", "latest:2", "snap:1"] + [f"anc:1:{j}" for j in range(0, n)]
+                    for tgt in targets:
+                        ops = ["ensure 2", "av 2 nil b:7", "ensure 1"]
+                        for i in range(1, n + 1):
+                            par = ("fresh" if base_nonnil else "nil") if i == 1 else "latest:1"
+                            ops.append(f"av 1 {par} b:{i}")
+                            if spos == i:
+                                ops.append(f"as 1 latest:1 b:100,{i}")
+                        ops += ["dump 1", f"as 1 {tgt} b:200", "dump 1", "gs 1"]
+                        out.append(Case(f"c10-x-{k}", ops)); k += 1
+        nh, length = sizes(tier, (40, 60), (800, 300))
+        for j in range(nh):
+            g = HistGen(rng, 2, False, True, False)
+            ops = []
+            for _ in range(rng.randint(10, length)):
+                for line in g.op():
+                    if line.startswith("as "):
+                        c = line.split()[1]
+                        ops += [f"dump {c}", line, f"dump {c}", f"gs {c}"]
+                    else:
+                        ops.append(line)
+            out.append(Case(f"c10-h-{j}", ops))
+        return out
+    def relevant(self, i, trace):
+        o, ri, rm = trace[i]
+        op = Op(o)
+        if op.kind == "as":
+            return True
+        if op.kind in ("dump", "gs") and i > 0:
+            j = i - 1
+            while j > 0 and trace[j][0].split()[0] in ("dump", "gs"):
+                j -= 1
+            return trace[j][0].startswith("as ")
+        return False
+    def oracle(self, case, trace, backend):
+        fails = []
+        for i, (o, ri, rm) in enumerate(trace):
+            op = Op(o)
+            if op.kind != "as" or i == 0 or i + 1 >= len(trace):
+                continue
+            if not (trace[i - 1][0].startswith(f"dump {op.c} ") and trace[i + 1][0].startswith(f"dump {op.c} ")):
+                continue
+            b, a = Dump(trace[i - 1][1]), Dump(trace[i + 1][1])
+            if not (b.ok and a.ok):
+                fails.append(f"op {i}: dump failed around add_snapshot"); continue
+            if b.absent:
+                if resp_kind(ri) != "noclient":
+                    fails.append(f"op {i}: add_snapshot for an unknown client answered {ri}")
+                continue
+            if resp_kind(ri) != "snapack":
+                fails.append(f"op {i}: add_snapshot answered {ri} (the client is told success either way)")
+            ids, stop = b.chain_back()
+            window, base = ids[:5], stop
+            snap = b.snap[0] if b.snap else None
+            want = rule_accepts(window, base, snap, op.v)
+            changed = (a.snap != b.snap) or (a.data != b.data)
+            replaced = a.snap is not None and a.snap[0] == op.v and a.data == op.data and a.snap[2] == 0 and abs(a.snap[1] - op.now) <= 3
+            if want is True and not (replaced and (a.snap != b.snap or a.data != b.data or True)):
+                fails.append(f"op {i}: snapshot for {op.v} should replace (window {window}, current {snap}) but stored snapshot is {a.snap} data {a.data}")
+            if want is False and changed:
+                fails.append(f"op {i}: snapshot for {op.v} must be declined (window {window}, base {base}, current {snap}) but stored snapshot changed {b.snap} -> {a.snap}")
+            if want is None and changed and not replaced:
+                fails.append(f"op {i}: stored snapshot changed to something other than the upload")
+            if a.latest != b.latest or a.key(True, b.by_id.keys())[4:] != b.key(True)[4:]:
+                fails.append(f"op {i}: add_snapshot changed versions or the latest pointer")
+            # moves only forward
+            if changed and replaced and snap is not None and snap != op.v:
+                order = [base] + list(reversed(ids))
+                if snap in order and op.v in order and order.index(op.v) <= order.index(snap):
+                    fails.append(f"op {i}: snapshot moved backwards from {snap} to {op.v}")
+            if i + 2 < len(trace) and trace[i + 2][0].startswith(f"gs {op.c}"):
+                g = trace[i + 2][1]
+                want_g = f"snap {a.snap[0]} {a.data}" if a.snap else "nosnap"
+                if g != want_g:
+                    fails.append(f"op {i}: get_snapshot says `{g}`, client record says `{want_g}`")
+        return fails
+    def nontrivial(self, case, trace):
+        return sum(1 for (o, ri, _) in trace if o.startswith("av ") and resp_kind(ri) == "added") >= 3
+
+
+class SnapTracker:
+    """ghost state from requests and responses only: accepted versions and the most recently
+    accepted snapshot upload per client (None = unknown after the open corner)"""
+    def __init__(self):
+        self.acc, self.snap, self.unknown = {}, {}, {}
+    def feed(self, op, ri):
+        if op.kind == "av" and resp_kind(ri) == "added":
+            self.acc.setdefault(op.c, []).append((added_id(ri), op.p, op.data))
+        if op.kind == "as" and resp_kind(ri) == "snapack":
+            window, base = chain_info(self.acc.get(op.c, []))
+            cur = self.snap.get(op.c)
+            w = rule_accepts(window, base, cur[0] if cur else None, op.v)
+            if self.unknown.get(op.c):
+                w = None
+            if w is True:
+                self.snap[op.c] = (op.v, op.data); self.unknown[op.c] = None
+            elif w is None:
+                self.unknown[op.c] = (cur, (op.v, op.data)) if not self.unknown.get(op.c) else "any"
+    def expect_gs(self, c):
+        if self.unknown.get(c):
+            return None
+        cur = self.snap.get(c)
+        return f"snap {cur[0]} {cur[1]}" if cur else "nosnap"
+    def resync(self, c, line):
+        t = line.split()
+        if t and t[0] == "snap":
+            self.snap[c] = (int(t[1]), t[2])
+        elif t and t[0] == "nosnap":
+            self.snap.pop(c, None)
+        self.unknown[c] = None
+
+
+class C11(L1Prop):
+    id = "C11"
+    rule = ("random histories of AddVersion / AddSnapshot (accepted and declined) with, after every operation of a "
+            "client, GetSnapshot and a walk of the chain from the returned version id; the expected answer is "
+            "recomputed from requests and responses by the acceptance rule; non-trivial = >=2 accepted snapshots and "
+            ">=1 declined one")
+    def cases(self, rng, tier):
+        n, length = sizes(tier, (80, 40), (1200, 160))
+        out = []
+        for k in range(n):
+            nc = rng.choice([1, 2, 3])
+            def obs(g, step):
+                cs = set()
+                for line in step:
+                    t = line.split()
+                    if t[0] in ("av", "as") and int(t[1]) in g.created:
+                        cs.add(int(t[1]))
+                return [f"swalk {c}" for c in sorted(cs)]
+            ops, g = rand_prefix(rng, rng.randint(8, length), nc, k % 4 == 0, True, False, obs)
+            ops += [f"swalk {c}" for c in range(1, nc + 1)]
+            out.append(Case(f"c11-{k}", ops))
+        return out
+    def relevant(self, i, trace):
+        o, ri, rm = trace[i]
+        op = Op(o)
+        if op.kind == "gs":
+            return True
+        if op.kind == "gcv":
+            # only inside a walk from the snapshot
+            j = i
+            while j >= 0 and not trace[j][0].startswith("mark "):
+                j -= 1
+            return j >= 0 and trace[j][0].startswith("mark swalk") and resp_kind(ri) != resp_kind(rm)
+        return False
+    def oracle(self, case, trace, backend):
+        fails, tr = [], SnapTracker()
+        i = 0
+        while i < len(trace):
+            o, ri, rm = trace[i]
+            op = Op(o)
+            tr.feed(op, ri)
+            if op.kind == "gs" and resp_kind(ri) in ("snap", "nosnap"):
+                want = tr.expect_gs(op.c)
+                if want is None:
+                    tr.resync(op.c, ri)
+                elif ri != want:
+                    fails.append(f"op {i}: get_snapshot returned `{ri}`, the most recently accepted upload is `{want}`")
+                    tr.resync(op.c, ri)
+            if op.kind == "mark" and op.args[0] == "swalk":
+                c = int(op.args[1])
+                j = i + 1
+                gsline = None
+                found, end = [], None
+                while j < len(trace) and not trace[j][0].startswith("mark endwalk"):
+                    oj = Op(trace[j][0])
+                    if oj.kind == "gs":
+                        gsline = trace[j][1]
+                        want = tr.expect_gs(c)
+                        if resp_kind(gsline) in ("snap", "nosnap"):
+                            if want is None:
+                                tr.resync(c, gsline)
+                            elif gsline != want:
+                                fails.append(f"op {j}: get_snapshot returned `{gsline}`, the most recently accepted upload is `{want}`")
+                                tr.resync(c, gsline)
+                    elif oj.kind == "gcv":
+                        fv = found_version(trace[j][1])
+                        if fv:
+                            found.append(fv[0])
+                        else:
+                            end = resp_kind(trace[j][1])
+                    j += 1
+                if gsline and gsline.startswith("snap "):
+                    v = int(gsline.split()[1])
+                    ids = [a[0] for a in tr.acc.get(c, [])]
+                    base = tr.acc[c][0][1] if tr.acc.get(c) else 0
+                    if v in ids:
+                        want_walk = ids[ids.index(v) + 1:]
+                    elif v == base:
+                        want_walk = ids
+                    else:
+                        want_walk = None
+                        fails.append(f"op {i}: snapshot version {v} is not on the chain of client {c}")
+                    if end == "gone":
+                        fails.append(f"op {i}: walking from snapshot version {v} was told gone")
+                    elif want_walk is not None and (found != want_walk or end != "notfound"):
+                        fails.append(f"op {i}: walk from snapshot {v} returned {found} then {end}; expected {want_walk} then notfound")
+                i = j
+            i += 1
+        return fails
+    def nontrivial(self, case, trace):
+        tr = SnapTracker(); acc = dec = 0
+        for (o, ri, _) in trace:
+            op = Op(o)
+            before = tr.snap.get(op.c) if op.c else None
+            tr.feed(op, ri)
+            if op.kind == "as" and resp_kind(ri) == "snapack":
+                if tr.snap.get(op.c) != before: acc += 1
+                else: dec += 1
+        return acc >= 2 and dec >= 1
+
+
+# ------------------------------------------------------------------ C13
+class C13(L1Prop):
+    id = "C13"
+    rule = ("the same symbolic history run in lock step on the in-memory backend and on SQLite with reopen at random "
+            "points (new storage object, schema setup re-run), complete dumps and raw SQLite rows after each step; "
+            "responses compared across backends and rows compared with the table model; non-trivial = >=1 reopen, "
+            ">=1 snapshot and >=3 versions")
+    def cases(self, rng, tier):
+        n, length = sizes(tier, (100, 40), (1500, 150))
+        out = []
+        for k in range(n):
+            nc = rng.choice([1, 2, 3])
+            def obs(g, step):
+                r = rng.random()
+                if r < 0.25: return ["dumpall", "rows"]
+                if r < 0.35: return ["reopen", "dumpall"]
+                return []
+            ops, g = rand_prefix(rng, rng.randint(8, length), nc, k % 5 == 0, True, True, obs)
+            ops += ["reopen", "dumpall", "rows"]
+            out.append(Case(f"c13-{k}", ops))
+        return out
+    def relevant(self, i, trace):
+        return trace[i][0].split()[0] == "rows"
+    def cross(self, case, traces):
+        a, b = traces.get("inmem", []), traces.get("sqlite", [])
+        for i, ((oa, ra, _), (ob, rb, _)) in enumerate(zip(a, b)):
+            if oa.split()[0] == "rows":
+                continue
+            # op lines may differ in the clock reading only
+            if not same_line(oa, ra, rb):
+                return [f"op {i} `{oa}`: in-memory backend answered `{ra}`, SQLite answered `{rb}`"]
+        if len(a) != len(b):
+            return [f"traces differ in length: {len(a)} vs {len(b)}"]
+        return []
+    def nontrivial(self, case, trace):
+        ks = [o.split()[0] for o, _, _ in trace]
+        return ks.count("reopen") >= 1 and sum(1 for (o, ri, _) in trace if o.startswith("av ") and resp_kind(ri) == "added") >= 3
+
+
+# ------------------------------------------------------------------ C18
+class C18(L1Prop):
+    id = "C18"
+    rule = ("random histories with a complete dump of ALL clients (and the raw SQLite rows) before and after every "
+            "operation; after GetChildVersion, GetSnapshot, a conflicting AddVersion, a request for an unknown client "
+            "and a declined AddSnapshot (declined as decided by the acceptance rule, not by observing the state) the "
+            "dumps must be identical, timestamps and counters included; non-trivial = >=3 distinct non-mutating outcome kinds")
+    def cases(self, rng, tier):
+        n, length = sizes(tier, (60, 30), (800, 100))
+        out = []
+        for k in range(n):
+            nc = rng.choice([1, 2, 3])
+            def obs(g, step):
+                return ["dumpall", "rows"]
+            ops, g = rand_prefix(rng, rng.randint(6, length), nc, k % 2 == 0, False, True, obs)
+            out.append(Case(f"c18-{k}", ["dumpall", "rows"] + ops))
+        return out
+    def _segments(self, trace):
+        """indices of protocol ops with the dump blocks before and after"""
+        for i, (o, ri, rm) in enumerate(trace):
+            k = o.split()[0]
+            if k in ("av", "gcv", "as", "gs"):
+                yield i
+    def _block(self, trace, i, direction):
+        out, j = [], i + direction
+        while 0 <= j < len(trace) and trace[j][0].split()[0] in ("dump", "rows"):
+            out.append(trace[j]); j += direction
+        return out if direction > 0 else list(reversed(out))
+    def relevant(self, i, trace):
+        o = trace[i][0]
+        if o.split()[0] not in ("dump", "rows"):
+            return False
+        j = i
+        while j >= 0 and trace[j][0].split()[0] in ("dump", "rows"):
+            j -= 1
+        if j < 0:
+            return False
+        op = Op(trace[j][0]); rm = trace[j][2]
+        k = resp_kind(rm)
+        return op.kind in ("gcv", "gs") or (op.kind == "av" and k in ("conflict", "noclient")) or op.kind == "as"
+    def oracle(self, case, trace, backend):
+        fails, tr = [], SnapTracker()
+        for i, (o, ri, rm) in enumerate(trace):
+            op = Op(o)
+            pure = False
+            if op.kind in ("gcv", "gs"):
+                pure = True
+            elif op.kind == "av" and resp_kind(ri) in ("conflict", "noclient"):
+                pure = True
+            elif op.kind == "as":
+                if resp_kind(ri) == "noclient":
+                    pure = True
+                else:
+                    window, base = chain_info(tr.acc.get(op.c, []))
+                    cur = tr.snap.get(op.c)
+                    w = rule_accepts(window, base, cur[0] if cur else None, op.v)
+                    pure = (w is False) and not tr.unknown.get(op.c)
+            tr.feed(op, ri)
+            if op.kind == "as" and tr.unknown.get(op.c):
+                # open corner: resynchronise from the dump that follows
+                for (o2, r2, _) in self._block(trace, i, +1):
+                    if o2.startswith(f"dump {op.c} "):
+                        d = Dump(r2)
+                        if d.ok and d.snap:
+                            tr.snap[op.c] = (d.snap[0], d.data)
+                        tr.unknown[op.c] = None
+            if not pure:
+                continue
+            before, after = self._block(trace, i, -1), self._block(trace, i, +1)
+            bd = {x[0].split()[1]: Dump(x[1]) for x in before if x[0].startswith("dump ")}
+            ad = {x[0].split()[1]: Dump(x[1]) for x in after if x[0].startswith("dump ")}
+            for c in bd:
+                if c in ad and bd[c].ok and ad[c].ok and bd[c].key(False) != ad[c].key(False, bd[c].by_id.keys()):
+                    fails.append(f"op {i} `{o}` answered `{ri}` (non-mutating) but client {c} changed: `{bd[c].line[:160]}` -> `{ad[c].line[:160]}`")
+                if c in ad and any(v is not None for kk, v in list(ad[c].by_id.items()) + list(ad[c].by_parent.items()) if kk not in bd[c].by_id):
+                    fails.append(f"op {i} `{o}` (non-mutating) stored a version")
+            br = [x[1] for x in before if x[0] == "rows"]
+            ar = [x[1] for x in after if x[0] == "rows"]
+            if br and ar and br[-1] != ar[0] and not br[-1].startswith("rows na"):
+                fails.append(f"op {i} `{o}` answered `{ri}` (non-mutating) but the raw rows changed")
+        return fails
+    def nontrivial(self, case, trace):
+        kinds = set()
+        for (o, ri, _) in trace:
+            k = o.split()[0]
+            if k in ("gcv", "gs"): kinds.add(k + resp_kind(ri))
+            if k == "av" and resp_kind(ri) in ("conflict", "noclient"): kinds.add(resp_kind(ri))
+        return len(kinds) >= 3
+
+
 ALL = {}
-for cls in (C01, C02, C07, C08, C12):
+for cls in (C01, C02, C07, C08, C10, C11, C12, C13, C18):
     ALL[cls.id] = cls
